@@ -3,7 +3,7 @@
   byte-level lemma "lexing the printer's bytes yields the printer's tokens" (Props/C17b.lean).
 
   * `InpAt inp p s`  the input from byte offset `p` on is exactly `s`;
-  * `L inp p st w le its`  the lexer record in expression mode (`doubleDelim = false`,
+  * `L tg inp p st w le its`  the lexer record in expression mode (`doubleDelim = false`,
     `tagStart = 0`) with `pos = p`, `start = st`, `width = w`, `lastEmit = le`, `items = its`;
   * one equation per primitive (`next`, `peek`, `backup`, `ignore`, `emit`, `accept`, `scanWhile`,
     `acceptRun`) on such a record, for ASCII bytes / end of input at the position read;
@@ -16,6 +16,8 @@ set_option linter.unusedVariables false
 
 namespace SoyVerif.Lemmas.LexPrint
 open SoyVerif SoyVerif.Model SoyVerif.Model.Lex
+
+variable {tg : Int}
 
 /-! ### the input from a position on -/
 
@@ -49,10 +51,10 @@ theorem inpAt_tail {inp p b s} (h : InpAt inp p (b :: s)) : InpAt inp (p + 1) s 
 
 /-! ### the lexer record in expression mode -/
 
-def L (inp : Array UInt8) (p st : Nat) (w : Int) (le : Item) (its : Array Item) : Lexer :=
-  { input := inp, pos := p, start := st, width := w, doubleDelim := false, tagStart := 0, lastEmit := le, items := its }
+def L (tg : Int) (inp : Array UInt8) (p st : Nat) (w : Int) (le : Item) (its : Array Item) : Lexer :=
+  { input := inp, pos := p, start := st, width := w, doubleDelim := false, tagStart := tg, lastEmit := le, items := its }
 
-theorem initLexer_eq (s : Bytes) : initLexer s = L s.toArray 0 0 0 Item.zero #[] := rfl
+theorem initLexer_eq (s : Bytes) : initLexer s = L 0 s.toArray 0 0 0 Item.zero #[] := rfl
 
 theorem decode_ascii {inp : Array UInt8} {p : Nat} {b : UInt8} (h : inp.getD p 0 = b) (hb : b < 128) :
     decodeRune inp p = (b.toNat, 1) := by
@@ -77,7 +79,7 @@ def AsciiHd : Bytes → Prop
   | b :: _ => b < 128
 
 theorem next_L {inp p b s} (h : InpAt inp p (b :: s)) (hb : b < 128) (st w le its) :
-    (L inp p st w le its).next = some ((b.toNat : Int), L inp (p + 1) st 1 le its) := by
+    (L tg inp p st w le its).next = some ((b.toNat : Int), L tg inp (p + 1) st 1 le its) := by
   have ⟨h1, h2⟩ := inpAt_get h
   unfold Lexer.next L Lexer.len
   simp only [Int.toNat_natCast, decode_ascii h2 hb]
@@ -85,7 +87,7 @@ theorem next_L {inp p b s} (h : InpAt inp p (b :: s)) (hb : b < 128) (st w le it
   simp
 
 theorem next_eof_L {inp p} (h : InpAt inp p []) (st w le its) :
-    (L inp p st w le its).next = some (-1, L inp p st 0 le its) := by
+    (L tg inp p st w le its).next = some (-1, L tg inp p st 0 le its) := by
   have := inpAt_end h
   unfold Lexer.next L Lexer.len
   rw [if_pos (by simp; omega)]
@@ -93,31 +95,31 @@ theorem next_eof_L {inp p} (h : InpAt inp p []) (st w le its) :
 
 /-- `next` at the head of `rest` -/
 theorem next_hd {inp p rest} (h : InpAt inp p rest) (ha : AsciiHd rest) (st w le its) :
-    (L inp p st w le its).next = some (hdRune rest, L inp (p + hdW rest) st (hdW rest) le its) := by
+    (L tg inp p st w le its).next = some (hdRune rest, L tg inp (p + hdW rest) st (hdW rest) le its) := by
   cases rest with
   | nil => exact next_eof_L h st w le its
   | cons b s => exact next_L h ha st w le its
 
-theorem backup_L (inp p st le its) : (L inp (p + 1) st 1 le its).backup = L inp p st 1 le its := by
+theorem backup_L (inp p st le its) : (L tg inp (p + 1) st 1 le its).backup = L tg inp p st 1 le its := by
   unfold Lexer.backup L; simp
 
-theorem backup_L0 (inp p st le its) : (L inp p st 0 le its).backup = L inp p st 0 le its := by
+theorem backup_L0 (inp p st le its) : (L tg inp p st 0 le its).backup = L tg inp p st 0 le its := by
   unfold Lexer.backup L; simp
 
 theorem backup_hd (inp p st le its) (rest : Bytes) :
-    (L inp (p + hdW rest) st (hdW rest) le its).backup = L inp p st (hdW rest) le its := by
+    (L tg inp (p + hdW rest) st (hdW rest) le its).backup = L tg inp p st (hdW rest) le its := by
   cases rest with
   | nil => exact backup_L0 inp p st le its
   | cons b s => exact backup_L inp p st le its
 
-theorem ignore_L (inp p st w le its) : (L inp p st w le its).ignore = L inp p p w le its := rfl
+theorem ignore_L (inp p st w le its) : (L tg inp p st w le its).ignore = L tg inp p p w le its := rfl
 
-theorem addPos_L2 (inp p st w le its) : (L inp (p + 2) st w le its).addPos (-2) = L inp p st w le its := by
+theorem addPos_L2 (inp p st w le its) : (L tg inp (p + 2) st w le its).addPos (-2) = L tg inp p st w le its := by
   unfold Lexer.addPos L; simp; omega
 
 /-- `peek` at the head of `rest` -/
 theorem peek_hd {inp p rest} (h : InpAt inp p rest) (ha : AsciiHd rest) (st w le its) :
-    (L inp p st w le its).peek = some (hdRune rest, L inp p st (hdW rest) le its) := by
+    (L tg inp p st w le its).peek = some (hdRune rest, L tg inp p st (hdW rest) le its) := by
   unfold Lexer.peek
   rw [next_hd h ha]
   simp only [Option.bind_eq_bind, Option.bind_some, Option.pure_def, backup_hd]
@@ -134,7 +136,7 @@ theorem emit_eq (l : Lexer) (t : ItemType) (v : Bytes) (h0 : 0 ≤ l.start) (h1 
 
 /-- `emit` of the token `v` that starts at `st` and ends at `pe` -/
 theorem emit_L {inp st v s} (h : InpAt inp st (v ++ s)) {pe : Nat} (hpe : pe = st + v.length) (w le its) (t : ItemType) :
-    (L inp pe st w le its).emit t = some (L inp pe pe w ⟨t, pe, v⟩ (its.push ⟨t, pe, v⟩)) := by
+    (L tg inp pe st w le its).emit t = some (L tg inp pe pe w ⟨t, pe, v⟩ (its.push ⟨t, pe, v⟩)) := by
   subst hpe
   have h1 := inpAt_len h
   have h2 := inpAt_extract h
@@ -147,7 +149,7 @@ theorem emit_L {inp st v s} (h : InpAt inp st (v ++ s)) {pe : Nat} (hpe : pe = s
 
 /-- the slice `l.input[l.start:l.pos]` of the token `v` -/
 theorem slice_L {inp st v s} (h : InpAt inp st (v ++ s)) {pe : Nat} (hpe : pe = st + v.length) (w le its) :
-    sliceOf (L inp pe st w le its).input (L inp pe st w le its).start (L inp pe st w le its).pos = some v := by
+    sliceOf (L tg inp pe st w le its).input (L tg inp pe st w le its).start (L tg inp pe st w le its).pos = some v := by
   subst hpe
   have h1 := inpAt_len h
   have h2 := inpAt_extract h
@@ -176,8 +178,8 @@ theorem scan_run {P : Int → Bool} {hp : P eof = false} {inp : Array UInt8} :
     ∀ (k : Bytes) {p : Nat} {rest : Bytes}, InpAt inp p (k ++ rest) →
     (∀ b ∈ k, b < 128 ∧ P (b.toNat : Int) = true) → AsciiHd rest → P (hdRune rest) = false →
     ∀ (st : Nat) (w : Int) (le : Item) (its : Array Item),
-    scanWhile P hp (L inp p st w le its) =
-      some (hdRune rest, L inp (p + k.length + hdW rest) st (hdW rest) le its)
+    scanWhile P hp (L tg inp p st w le its) =
+      some (hdRune rest, L tg inp (p + k.length + hdW rest) st (hdW rest) le its)
   | [], p, rest, h, _, ha, hf, st, w, le, its => by
     rw [scanWhile_some (next_hd (by simpa using h) ha st w le its), if_neg (by simp [hf])]
     simp
@@ -194,14 +196,14 @@ theorem scan_run_backup {P : Int → Bool} {hp : P eof = false} {inp : Array UIn
     (k : Bytes) {p : Nat} {rest : Bytes} (h : InpAt inp p (k ++ rest))
     (hk : ∀ b ∈ k, b < 128 ∧ P (b.toNat : Int) = true) (ha : AsciiHd rest) (hf : P (hdRune rest) = false)
     (st : Nat) (w : Int) (le : Item) (its : Array Item) :
-    ∃ r l', scanWhile P hp (L inp p st w le its) = some (r, l') ∧
-      l'.backup = L inp (p + k.length) st (hdW rest) le its :=
+    ∃ r l', scanWhile P hp (L tg inp p st w le its) = some (r, l') ∧
+      l'.backup = L tg inp (p + k.length) st (hdW rest) le its :=
   ⟨_, _, scan_run k h hk ha hf st w le its, backup_hd inp (p + k.length) st le its rest⟩
 
 theorem accept_hd {inp p rest} (h : InpAt inp p rest) (ha : AsciiHd rest) (valid : List Int) (st w le its) :
-    accept (L inp p st w le its) valid =
-      some (if indexRune valid (hdRune rest) = true then (true, L inp (p + hdW rest) st (hdW rest) le its)
-            else (false, L inp p st (hdW rest) le its)) := by
+    accept (L tg inp p st w le its) valid =
+      some (if indexRune valid (hdRune rest) = true then (true, L tg inp (p + hdW rest) st (hdW rest) le its)
+            else (false, L tg inp p st (hdW rest) le its)) := by
   unfold accept
   rw [next_hd h ha]
   simp only [Option.bind_eq_bind, Option.bind_some, Option.pure_def, backup_hd]
@@ -209,14 +211,14 @@ theorem accept_hd {inp p rest} (h : InpAt inp p rest) (ha : AsciiHd rest) (valid
 
 theorem accept_yes {inp p b s} (h : InpAt inp p (b :: s)) (hb : b < 128) (valid : List Int)
     (hv : indexRune valid (b.toNat : Int) = true) (st w le its) :
-    accept (L inp p st w le its) valid = some (true, L inp (p + 1) st 1 le its) := by
+    accept (L tg inp p st w le its) valid = some (true, L tg inp (p + 1) st 1 le its) := by
   rw [accept_hd h hb]
   simp only [hdRune, hv, if_true, hdW]
   rfl
 
 theorem accept_no {inp p rest} (h : InpAt inp p rest) (ha : AsciiHd rest) (valid : List Int)
     (hv : indexRune valid (hdRune rest) = false) (st w le its) :
-    accept (L inp p st w le its) valid = some (false, L inp p st (hdW rest) le its) := by
+    accept (L tg inp p st w le its) valid = some (false, L tg inp p st (hdW rest) le its) := by
   rw [accept_hd h ha]
   simp [hv]
 
@@ -225,7 +227,7 @@ theorem acceptRun_run {inp : Array UInt8} (valid : List Int)
     (hk : ∀ b ∈ k, b < 128 ∧ indexRune valid (b.toNat : Int) = true) (ha : AsciiHd rest)
     (hf : indexRune valid (hdRune rest) = false)
     (st : Nat) (w : Int) (le : Item) (its : Array Item) :
-    acceptRun (L inp p st w le its) valid = some (decide (0 < k.length), L inp (p + k.length) st (hdW rest) le its) := by
+    acceptRun (L tg inp p st w le its) valid = some (decide (0 < k.length), L tg inp (p + k.length) st (hdW rest) le its) := by
   unfold acceptRun
   rw [scan_run k h hk ha hf]
   simp only [Option.bind_eq_bind, Option.bind_some, Option.pure_def, backup_hd]
